@@ -635,16 +635,26 @@ def r10_10(ctx: Ctx) -> RuleResult:
                    "the recompiled query holds an integer literal and prints differently (the text is not a fixed point)",
                    construct=f"FloatLiteral: {value!r} -> `{text}` lexed as {[t[1] for t in toks]}")
             break
-    guards = [
-        c for c in calls(st.node) if callee_name(c) in ("isinf", "isfinite", "isnan")
-    ] + [n for n in ast.walk(st.node) if isinstance(n, ast.Compare) and "inf" in ast.unparse(n)]
-    if guards:
-        rr.ok(st.loc(guards[0]), f"FloatLiteral.__str__ treats non-finite values separately (`{short(guards[0])}`); "
-              f"tokens such as {overflowing[0]} overflow to infinity")
-    else:
-        rr.bad(st, st.node, f"the lexer accepts `{overflowing[0]}`, which float() turns into infinity, and {st.qualname} prints it as "
-               "`inf`: the text of `$[?@.a == 1e999]` is `$[?@['a'] == inf]`, which does not compile",
-               construct="FloatLiteral: non-finite values printed with repr()")
+    # the two infinities: what is printed must be a numeric token again, and one that overflows to the same infinity
+    for value in (float("inf"), float("-inf")):
+        model = _Mo(ctx, "R10.10")
+        model.whole_bodies = True
+        text = _MO(model, "jsonpath.filter.FloatLiteral", {"value": value, "volatile": False}).peval_str()
+        if text is _UNK or not isinstance(text, str):
+            raise AnalysisError(f"R10.10: the text of the float literal {value!r} cannot be determined")
+        toks = lex.tokens_of(text)
+        numeric = len(toks) == 1 and toks[0][1] in ("FLOAT", "INT") and toks[0][2] == text
+        try:
+            back = float(text) if numeric else None
+        except ValueError:
+            back = None
+        if numeric and back == value:
+            rr.ok(st.loc(), f"FloatLiteral.__str__ prints {value!r} as `{text}`, a numeric token that overflows to the same infinity "
+                  f"(tokens such as {overflowing[0]} overflow to infinity)")
+        else:
+            rr.bad(st, st.node, f"the lexer accepts `{overflowing[0]}`, which float() turns into infinity, and {st.qualname} prints {value!r} as "
+                   f"`{text}`: the text of `$[?@.a == 1e999]` does not compile to the same query",
+                   construct=f"FloatLiteral: {value!r} printed as `{text}`")
     return rr
 
 
